@@ -760,6 +760,11 @@ func (s *scen) exec(op int, probe bool) result {
 		if kEpoch(o.k) < s.mem() {
 			return result{obs: "proof-of-forgotten-epoch"}
 		}
+		// the provider serves relays of epoch e only while e > current - blockDist; a relay accepted just before
+		// an epoch update may deliver its proof after it, so proofs arrive at most one epoch later than that
+		if kEpoch(o.k)+blockDist+epochSize <= s.E {
+			return result{obs: "proof-of-expired-epoch"}
+		}
 		cp := *s.tmpl[o.k][o.cui]
 		p := &cp
 		s.ptr[p] = pg{o.k, s.gen[o.k]}
